@@ -24,7 +24,7 @@ RULE = ("E1: every labelled undirected graph up to the node bound (connected one
 BOUNDS = {"quick": "undirected graphs n<=4 (64 labelled, 38 connected) x 6 layouts x 2 card vectors; BNs: all DAGs n<=4 (JT on connected moral graphs); "
                    "n=5: the 728 connected graphs, edge layout, to_junction_tree only",
           "thorough": "adds all 1024 labelled graphs on 5 nodes for triangulate/factor graph, 3 relabelings of every n=4 case, every conversion on the 728 connected "
-                      "5-node graphs x the 4 other layouts, all 29281 labelled 5-node DAGs as BN sources, clique trees of all 26704 connected 6-node graphs"}
+                      "5-node graphs x the 4 other layouts, all 29281 labelled 5-node DAGs as BN sources, clique trees of all 26704 connected 6-node graphs, triangulate on all 32768 labelled 6-node graphs"}
 EXHAUSTIVE = {"quick": True, "thorough": True}
 ASSUMPTIONS = ["junction-tree targets need a connected graph (the library rejects others by design)", "string variable names"]
 
@@ -69,6 +69,9 @@ def groups(tier, seed):
         n6 = len(all_ugraphs(6))
         for i in range(0, n6, 100):
             out.append({"kind": "mn6", "lo": i, "hi": min(i + 100, n6)})
+        # triangulate (six heuristics, two explicit orders, in / out of place) on every labelled 6-node graph
+        for i in range(0, 1 << 15, 128):
+            out.append({"kind": "tri6", "lo": i, "hi": i + 128})
     return out
 
 
@@ -93,6 +96,10 @@ def run_group(g, tier):
             _g5["c"] = all_ugraphs(5)
         for i in range(g["lo"], g["hi"]):
             _mn(st, {"kind": "mn", "n": 5, "edges": [list(x) for x in _g5["c"][i]], "card": [2, 3, 2, 2, 3], "layout": g["layout"], "perm": None})
+    elif g["kind"] == "tri6":
+        p6 = list(combinations(range(6), 2))
+        for code in range(g["lo"], g["hi"]):
+            _mn(st, {"kind": "mn", "n": 6, "edges": [list(p) for i, p in enumerate(p6) if code >> i & 1], "card": [2, 3, 2, 2, 3, 2], "layout": "edge", "perm": None}, tri_only=True)
     elif g["kind"] == "mn6":
         if "c6" not in _g5:
             _g5["c6"] = all_ugraphs(6)
